@@ -91,7 +91,7 @@ IsLoc(t) == t.op \in {"AdvanceLoc", "SetLoc"}
 P(a, mc, mf, mt) == [alpha |-> a, maxcie |-> mc, maxfde |-> mf, maxtotal |-> mt]
 Plans == CASE Plan = "tiny"     -> {P("core", 1, 1, 2)}
            [] Plan = "quick"    -> {P("core", 2, 3, 3), P("slim", 2, 3, 4), P("ini", 2, 3, 5)}
-           [] Plan = "thorough" -> {P("core", 2, 3, 5), P("slim", 2, 4, 6), P("wide", 1, 3, 3)}
+           [] Plan = "thorough" -> {P("core", 2, 3, 4), P("slim", 2, 4, 5), P("ini", 2, 4, 6), P("wide", 1, 3, 3)}
 (* in the quick tier the CIE draws from the instructions that shape what   *)
 (* the FDE starts from: 0 / 1 / 2 / 3 initial rules, register or expression*)
 (* CFA, remembered rows, args size, and the invalid restore                *)
